@@ -681,18 +681,104 @@ func dispatchComplete(p *core.Program, fd *core.FuncDecl, panicCall *ast.CallExp
 		}
 		return true
 	})
+	// a type switch without default that stands before the panic and whose every clause leaves
+	// the function: the panic is what remains when no clause applied
+	ast.Inspect(fd.Decl.Body, func(n ast.Node) bool {
+		ts, ok := n.(*ast.TypeSwitchStmt)
+		if !ok || ts.End() > panicCall.Pos() {
+			return true
+		}
+		var subjExpr ast.Expr
+		switch a := ts.Assign.(type) {
+		case *ast.AssignStmt:
+			if t, ok := ast.Unparen(a.Rhs[0]).(*ast.TypeAssertExpr); ok {
+				subjExpr = t.X
+			}
+		case *ast.ExprStmt:
+			if t, ok := ast.Unparen(a.X).(*ast.TypeAssertExpr); ok {
+				subjExpr = t.X
+			}
+		}
+		v := core.VarOf(info, subjExpr)
+		if v == nil {
+			return true
+		}
+		for _, cc := range ts.Body.List {
+			cl := cc.(*ast.CaseClause)
+			if cl.List == nil || len(cl.Body) == 0 {
+				return true
+			}
+			switch last := cl.Body[len(cl.Body)-1].(type) {
+			case *ast.ReturnStmt:
+			case *ast.ExprStmt:
+				if call, ok := last.X.(*ast.CallExpr); !ok {
+					return true
+				} else if id, ok := call.Fun.(*ast.Ident); !ok || id.Name != "panic" {
+					return true
+				}
+			default:
+				return true
+			}
+		}
+		for _, cc := range ts.Body.List {
+			for _, te := range cc.(*ast.CaseClause).List {
+				if t := info.TypeOf(te); t != nil {
+					tas = append(tas, ta{v, t})
+				}
+			}
+		}
+		return true
+	})
 	if len(tas) == 0 {
 		return "", false
 	}
 	subj := tas[len(tas)-1].v
-	d, ok := ld.Before(subj, panicCall.Pos())
-	if !ok || d.RHS == nil {
+	// the subject is a parameter of an unexported function: every call site must hand in the
+	// result of a producer whose results are covered
+	var pcall *ast.CallExpr
+	cinfo := info
+	cfdecl := fd
+	if idx, isParam := paramIndex(fd.Obj, subj); isParam && idx >= 0 && !fd.Obj.Exported() {
+		var sites []*ast.CallExpr
+		var siteFds []*core.FuncDecl
+		for _, ofd := range p.Funcs(fd.Pkg) {
+			if ofd.Decl.Body == nil || p.IsTestFile(ofd.Decl.Pos()) {
+				continue
+			}
+			ofd := ofd
+			ast.Inspect(ofd.Decl.Body, func(n ast.Node) bool {
+				if call, ok := n.(*ast.CallExpr); ok && core.Callee(info, call) == fd.Obj {
+					sites = append(sites, call)
+					siteFds = append(siteFds, ofd)
+				}
+				return true
+			})
+		}
+		if len(sites) != 1 || idx >= len(sites[0].Args) {
+			return "", false
+		}
+		av := core.VarOf(info, sites[0].Args[idx])
+		if av == nil {
+			return "", false
+		}
+		cfdecl = siteFds[0]
+		cld := core.NewLocalDefs(info, cfdecl.Decl.Body)
+		d, ok := cld.Before(av, sites[0].Pos())
+		if !ok || d.RHS == nil {
+			return "", false
+		}
+		pcall, _ = ast.Unparen(d.RHS).(*ast.CallExpr)
+	} else {
+		d, ok := ld.Before(subj, panicCall.Pos())
+		if !ok || d.RHS == nil {
+			return "", false
+		}
+		pcall, _ = ast.Unparen(d.RHS).(*ast.CallExpr)
+	}
+	if pcall == nil {
 		return "", false
 	}
-	pcall, ok := ast.Unparen(d.RHS).(*ast.CallExpr)
-	if !ok {
-		return "", false
-	}
+	_ = cinfo
 	prod := core.Callee(info, pcall)
 	pfd := p.DeclOf(prod)
 	if pfd == nil {
@@ -708,7 +794,7 @@ func dispatchComplete(p *core.Program, fd *core.FuncDecl, panicCall *ast.CallExp
 	}
 	pinfo := pfd.Pkg.TypesInfo
 	pff := core.NewFuncFlow(pfd)
-	cff := core.NewFuncFlow(fd)
+	cff := core.NewFuncFlow(cfdecl)
 	why := ""
 	for _, r := range pff.Flow.Returns() {
 		if !pff.Flow.Reachable(r) || len(r.Results) != 2 || core.IsNil(pinfo, r.Results[0]) {
